@@ -174,8 +174,13 @@ static void mo_remove(M &m, int key) {         // the member disappears, a remov
     for (unsigned j = unsigned(i); j + 1 < 6; ++j) m.o[j] = m.o[j + 1];
     --m.n.cnt; ++m.n.holes;
 }
+// (member-wise: one big struct copy would be a byte copy of > 512 bytes, which costs CBMC its field sensitivity)
+static void m_assign(M &d, const M &src) {
+    d.n = src.n;
+    for (unsigned i = 0; i < 6; ++i) { d.e[i] = src.e[i]; d.o[i].key = src.o[i].key; d.o[i].v = src.o[i].v; }
+}
 static void m_copy_of(M &d, const M &src) {     // a deep copy keeps the members and drops every removed slot
-    d = src;
+    m_assign(d, src);
     d.n.holes = 0;
     for (unsigned i = 0; i < 6; ++i) { d.e[i].holes = 0; d.o[i].v.holes = 0; }
 }
@@ -693,7 +698,7 @@ extern "C" void h_step() {
         m_copy_of(m, sm);
 #elif OP == OP_AS_MOVE
         *v = Memory::Move(*src);
-        m = sm;
+        m_assign(m, sm);
 #elif OP == OP_AP_COPY
         *v += (const V &)*src;                  // object += object merges (replace or append); everything else appends one member
         if (m.n.k == T::Object && sm.n.k == T::Object) mo_merge(m, sm); else { m_to_array(m); m_push(m, mn_copy_of(sm.n)); }
@@ -847,7 +852,7 @@ extern "C" void h_step() {
             M c; m_clear(c); c.n.k = T::Array;
             for (unsigned i = 0; i < PRE_N; ++i)
                 if (m.e[i].k != T::Undefined) m_push(c, m.e[i]);
-            m = c;
+            m_assign(m, c);
             vf_assert(v->GetArray()->Capacity() == m.n.cnt, 340);   // no spare room left
         }
         if (m.n.k == T::Object) m.n.holes = 0;                      // removed slots are dropped
@@ -925,7 +930,7 @@ extern "C" void h_step() {
         if (AN == 0) { o.Insert(ST("a", SizeT(1)), V(1u)); o.Reset(); }     // an empty hash array with explicitly written fields
 #if OP == OP_AS_OBJ
         if (W & 1) *v = Memory::Move(o); else *v = (const OT &)o;
-        m = om;
+        m_assign(m, om);
 #else
         if (W & 1) *v += Memory::Move(o); else *v += (const OT &)o;
         if (m.n.k == T::Object) mo_merge(m, om); else { m_to_array(m); m_push(m, om.n); }   // merged by key, or appended as one member
